@@ -74,6 +74,12 @@ pub enum Entry {
     /// `Decode::decode` through the simulator-owned reader device, then `finish`:
     /// lending or not (a non-lending reader cannot hand out borrowed slices), optionally failing at the k-th read
     ReaderDev { lending: bool, fail_at: Option<usize> },
+    /// `Reader::context_specific::<T>(1, TagMode::Implicit)` + `finish` — `[1] IMPLICIT INTEGER`; bytes = whole TLV
+    CtxImplicit,
+    /// `Reader::context_specific::<T>(1, TagMode::Explicit)` + `finish` — `[1] EXPLICIT INTEGER`; bytes = whole TLV
+    CtxExplicit,
+    /// `SliceReader` + `sequence(|r| k x decode)` + `finish` — SEQUENCE of k INTEGERs
+    SeqN(u8),
     /// `rlp::decode`
     Rlp,
     /// `Rlp::new(bytes).val_at(0..2)` — list of two integers
@@ -94,10 +100,36 @@ fn val<T: Encoding>(x: &T) -> BigUint {
 
 fn der_decode_t<T>(entry: Entry, b: &[u8]) -> Dec
 where
-    T: Encoding + for<'a> Decode<'a, Error = der::Error> + for<'a> TryFrom<der::asn1::AnyRef<'a>, Error = der::Error> + for<'a> TryFrom<der::asn1::UintRef<'a>, Error = der::Error>,
+    T: Encoding + for<'a> Decode<'a, Error = der::Error> + for<'a> der::DecodeValue<'a, Error = der::Error> + der::FixedTag + for<'a> TryFrom<der::asn1::AnyRef<'a>, Error = der::Error> + for<'a> TryFrom<der::asn1::UintRef<'a>, Error = der::Error>,
 {
     let g = guard(|| -> Result<Vec<BigUint>, String> {
         match entry {
+            Entry::CtxImplicit | Entry::CtxExplicit => {
+                use der::Reader as _;
+                let mode = if entry == Entry::CtxImplicit { der::TagMode::Implicit } else { der::TagMode::Explicit };
+                let mut r = der::SliceReader::new(b).map_err(|e| e.to_string())?;
+                let v: Option<T> = r.context_specific::<T>(der::TagNumber::new(1), mode).map_err(|e| e.to_string())?;
+                let v = r.finish(v).map_err(|e| e.to_string())?;
+                match v {
+                    Some(x) => Ok(vec![val(&x)]),
+                    None => Err("field absent".into()),
+                }
+            }
+            Entry::SeqN(k) => {
+                use der::Reader as _;
+                let mut r = der::SliceReader::new(b).map_err(|e| e.to_string())?;
+                let items = r
+                    .sequence(|r| {
+                        let mut v = Vec::new();
+                        for _ in 0..k {
+                            v.push(T::decode(r)?);
+                        }
+                        Ok::<_, der::Error>(v)
+                    })
+                    .map_err(|e| e.to_string())?;
+                let items = r.finish(items).map_err(|e| e.to_string())?;
+                Ok(items.iter().map(val).collect())
+            }
             Entry::FromDer => T::from_der(b).map(|v| vec![val(&v)]).map_err(|e| e.to_string()),
             Entry::Seq2 => {
                 let mut r = der::SliceReader::new(b).map_err(|e| e.to_string())?;
@@ -223,6 +255,46 @@ pub fn ref_decode(bits: u32, entry: Entry, b: &[u8]) -> Result<Vec<BigUint>, Bad
             let mag = &b[first..];
             if mag.len() > max { Err(Bad::Oversized) } else { Ok(vec![BigUint::from_bytes_be(mag)]) }
         }
+        Entry::CtxImplicit => {
+            // the INTEGER's own tag is replaced by the primitive context-specific tag [1]
+            if b.first() != Some(&0x81) {
+                return Err(if b.is_empty() { Bad::Empty } else { Bad::Tag });
+            }
+            let mut t = b.to_vec();
+            t[0] = 0x02;
+            codec::der_int_decode(&t, max).map(|v| vec![v])
+        }
+        Entry::CtxExplicit => {
+            // constructed context-specific tag [1] around one complete INTEGER
+            let (h, n) = codec::der_header(b, 0xa1)?;
+            if b.len() < h + n {
+                return Err(Bad::Truncated);
+            }
+            if b.len() != h + n {
+                return Err(Bad::Trailing);
+            }
+            codec::der_int_decode(&b[h..], max).map(|v| vec![v])
+        }
+        Entry::SeqN(k) => {
+            let (h, n) = codec::der_header(b, 0x30)?;
+            if b.len() < h + n {
+                return Err(Bad::Truncated);
+            }
+            if b.len() != h + n {
+                return Err(Bad::Trailing);
+            }
+            let body = &b[h..];
+            let (mut at, mut vals) = (0usize, Vec::new());
+            for _ in 0..k {
+                let (v, used) = codec::der_int_tlv(&body[at..], max)?;
+                vals.push(v);
+                at += used;
+            }
+            if at != body.len() {
+                return Err(Bad::Trailing);
+            }
+            Ok(vals)
+        }
         Entry::Rlp => codec::rlp_decode_first(b, max).map(|(v, _)| vec![v]),
         Entry::RlpList2 => {
             // list header, then two canonical items
@@ -267,6 +339,9 @@ fn entry_name(e: Entry) -> String {
         Entry::AnyRef(t) => format!("TryFrom<AnyRef>(tag={:02x})", t),
         Entry::UintRef => "TryFrom<UintRef>".into(),
         Entry::ReaderDev { lending, fail_at } => format!("decode(SimDerReader:{}{})", if lending { "lending" } else { "non-lending" }, if fail_at.is_some() { ":read-fault" } else { "" }),
+        Entry::CtxImplicit => "context_specific(1,Implicit)".into(),
+        Entry::CtxExplicit => "context_specific(1,Explicit)".into(),
+        Entry::SeqN(k) => format!("reader-seq{}", k),
         Entry::Rlp => "rlp::decode".into(),
         Entry::RlpList2 => "Rlp::val_at".into(),
     }
@@ -647,7 +722,66 @@ fn check_encode_der(bits: u32, x: &BigUint, out: &mut RunOut) -> Option<Vec<u8>>
         );
     }
     out.state(format!("enc|der|w{}|{}", bits, value_class(bits, x)));
+    // the same value as a context-specific field and inside a SEQUENCE of three: the containers of the `der` crate
+    // call value_len / encode_value of the integer with their own headers around it
+    if let Some(Ok((imp, exp, seq))) = der_encode_containers(bits, x) {
+        let content = codec::der_int_content(x);
+        let mut want_imp = vec![0x81u8];
+        want_imp.extend(codec::der_len(content.len()));
+        want_imp.extend(&content);
+        let mut want_exp = vec![0xa1u8];
+        want_exp.extend(codec::der_len(want.len()));
+        want_exp.extend(&want);
+        let mut body = want.clone();
+        body.extend([0x02u8, 0x01, 0x05]);
+        body.extend(&want);
+        let mut want_seq = vec![0x30u8];
+        want_seq.extend(codec::der_len(body.len()));
+        want_seq.extend(&body);
+        for (name, got, want) in [("[1] IMPLICIT", imp, want_imp), ("[1] EXPLICIT", exp, want_exp), ("SEQUENCE of 3", seq, want_seq)] {
+            out.ev(&format!("enc/der-container/{}/{}", name, bits));
+            match got {
+                Ok(g) if g == want => {}
+                Ok(g) => out.viol("C18/der-encode-noncanonical", format!("w{}:{}:{}", bits, name, value_class(bits, x)), format!("{} of {:#x} encoded as {}, canonical {}", name, x, hex(&g[..g.len().min(40)]), hex(&want[..want.len().min(40)])), plan()),
+                Err(e) => out.viol("C18/der-encode-noncanonical", format!("w{}:{}:error", bits, name), format!("{} of {:#x} failed to encode: {}", name, x, e), plan()),
+            }
+        }
+        out.count("probe:der-container-encodings-checked");
+    } else if let Some(Err(p)) = der_encode_containers(bits, x) {
+        out.viol("C11/unexpected-panic", format!("der-encode-container:{}", p.location), format!("encoding inside a der container unwound at {}: {}", p.location, p.message), plan());
+    }
     Some(obs.written)
+}
+
+type Enc3 = (Result<Vec<u8>, String>, Result<Vec<u8>, String>, Result<Vec<u8>, String>);
+
+/// `[1] IMPLICIT x`, `[1] EXPLICIT x` and `SEQUENCE { x, 5, x }` through the `der` crate's own containers.
+fn der_encode_containers(bits: u32, x: &BigUint) -> Option<Result<Enc3, PanicInfo>> {
+    with_der_type!(bits, T, {
+        let v: T = uint_from_big::<T>(x, (bits / 8) as usize);
+        let five: T = uint_from_big::<T>(&BigUint::from(5u8), (bits / 8) as usize);
+        let g = guard(|| {
+            use der::Encode;
+            use der::asn1::ContextSpecificRef;
+            let imp = ContextSpecificRef { tag_number: der::TagNumber::new(1), tag_mode: der::TagMode::Implicit, value: &v }.to_der().map_err(|e| e.to_string());
+            let exp = ContextSpecificRef { tag_number: der::TagNumber::new(1), tag_mode: der::TagMode::Explicit, value: &v }.to_der().map_err(|e| e.to_string());
+            let seq = der::asn1::SequenceOf::<T, 3>::new();
+            let seq = {
+                let mut s = seq;
+                let r = s.add(v.clone()).and_then(|_| s.add(five.clone())).and_then(|_| s.add(v.clone()));
+                match r {
+                    Ok(()) => s.to_der().map_err(|e| e.to_string()),
+                    Err(e) => Err(e.to_string()),
+                }
+            };
+            (imp, exp, seq)
+        });
+        match g {
+            Guarded::Done(t) => Some(Ok(t)),
+            Guarded::Panic(p) => Some(Err(p)),
+            Guarded::Budget => None,
+        }
+    }, else { None })
 }
 
 fn check_encode_rlp(bits: u32, x: &BigUint, out: &mut RunOut) -> Option<Vec<u8>> {
@@ -788,6 +922,49 @@ fn exec(plan: &Plan, out: &mut RunOut) {
                     b2.extend(codec::der_len(body2.len()));
                     b2.extend(&body2);
                     check_decode(bits, Entry::Seq2, &b2, out);
+                }
+                // the same content as a context-specific field: [1] IMPLICIT (primitive tag 81; 80 = another field,
+                // a1 = constructed form of the same number, 82 = a later field) and [1] EXPLICIT (a1 around the TLV)
+                for tag in [0x81u8, 0x80, 0xa1, 0x82] {
+                    let mut b = vec![tag];
+                    b.extend(codec::der_len(c.len()));
+                    b.extend(&c);
+                    check_decode(bits, Entry::CtxImplicit, &b, out);
+                }
+                for (tag, extra) in [(0xa1u8, 0usize), (0x81, 0), (0xa1, 1)] {
+                    // extra = 1: the outer length claims one octet more than the INTEGER inside has
+                    let mut b = vec![tag];
+                    b.extend(codec::der_len(first.len() + extra));
+                    b.extend(&first);
+                    check_decode(bits, Entry::CtxExplicit, &b, out);
+                }
+                // a longer SEQUENCE: this integer first, in the middle and last among small ones
+                for k in [3u8, 6] {
+                    for pos in [0usize, (k / 2) as usize, k as usize - 1] {
+                        let mut body = Vec::new();
+                        for i in 0..k as usize {
+                            if i == pos {
+                                body.extend(&first);
+                            } else {
+                                body.extend([0x02u8, 0x01, i as u8 + 1]);
+                            }
+                        }
+                        let mut b = vec![0x30];
+                        b.extend(codec::der_len(body.len()));
+                        b.extend(&body);
+                        check_decode(bits, Entry::SeqN(k), &b, out);
+                    }
+                }
+                // six copies of this integer in a row
+                {
+                    let mut body = Vec::new();
+                    for _ in 0..6 {
+                        body.extend(&first);
+                    }
+                    let mut b = vec![0x30];
+                    b.extend(codec::der_len(body.len()));
+                    b.extend(&body);
+                    check_decode(bits, Entry::SeqN(6), &b, out);
                 }
                 check_decode(bits, Entry::AnyRef(0x02), &c, out);
                 check_decode(bits, Entry::AnyRef(0x03), &c, out);
